@@ -379,7 +379,14 @@ def find_check_cache(context):
 @make.post_rules_hook
 def make_find_dirs(build_inputs, buildfile, env):
     if build_inputs['find_dirs']:
-        write_depfile(env, Path(depfile_name), make.filepath,
+        # If the regenerate step has multiple outputs, its recipe is attached
+        # to a stamp file (see `make.multitarget_rule`), so that's what needs
+        # to depend on the directories we searched.
+        regen_files = regenerate.RegenerateFiles.make(build_inputs, env)
+        target = make.filepath
+        if len(regen_files.outputs) > 1:
+            target = target.addext('.stamp')
+        write_depfile(env, Path(depfile_name), target,
                       build_inputs['find_dirs'], makeify=True)
         buildfile.include(depfile_name)
 
